@@ -10,7 +10,7 @@ PENDING, RUNNING = 1, 2  # _ClientState members are encoded by their position in
 
 
 def register(R):
-    R.ghost(tasks_started="int", suspensions="int", handler_failures="int")
+    R.ghost(tasks_started="int", suspensions="int", handler_failures="int", dg_taken="int")
     R.module(ST)
     R.shape("ConditionModel", cls="Condition", fields={"held": "bool"})
     R.shape("TaskGroupModel", cls="TaskGroup", fields={})
@@ -49,7 +49,7 @@ def register(R):
         "_ClientData.pop_datagram_no_wait", result="bytes",
         ensures=[("head-of-the-queue", f"result == old({Q})[0] and {Q} == old({Q})[1:]", "C16")],
         raises={"IndexError": [("queue-was-empty", f"len(old({Q})) == 0 and {Q} == old({Q})", "C16")]},
-        modifies=[Q], tags="C16",
+        modifies=[Q, "ghost.dg_taken"], env={"ghost_on_return": {"dg_taken": "ghost.dg_taken + 1"}}, tags="C16",
     )
     keep_running = ("the-running-task-stays-the-running-task", f"implies(old({stt}) == {RUNNING}, {stt} == {RUNNING})", "C16 C17")
     R.contract(
@@ -141,6 +141,9 @@ def register_handler(R):
                   ("generator-accounting", "ghost.live_gens == old(ghost.live_gens) - 1", "C16 C17"),
                   ("no-handler-generator-left-running", f"{gen}.finished and {gen}.closed <= 1", "C16 C17"),
                   ("condition-released", "not client_data._queue_condition.held", "C16")]
+    TAKEN = ("the-datagram-this-task-was-started-for-is-taken-out-of-the-queue-on-every-exit - also when the handler refuses it before its first yield "
+             "(left queued it would be handed to the next handler: one datagram, one receive)",
+             "ghost.dg_taken >= old(ghost.dg_taken) + 1", "C05 C16")
     R.contract(
         "AsyncDatagramServer.__client_coroutine_inner_loop", self_shape="AsyncDatagramServerP",
         params={"request_handler_generator": "HandlerGenModel", "client_data": "_ClientData"},
@@ -149,10 +152,10 @@ def register_handler(R):
                   ("a-datagram-is-waiting (a task is started only for a queued datagram)", f"len({cqi}) >= 1")],
         loops={1: {"inv": [f"{csi} == {RUNNING}", f"not {gen}.finished", f"{gen}.closed == 0", "not client_data._queue_condition.held", "ghost.live_gens == old(ghost.live_gens)", "timeout == ghost.last_timeout",
                            "ghost.handler_failures >= old(ghost.handler_failures)"]}},
-        ensures=inner_exit,
-        raises={"BaseException": inner_exit + [OWN]},
+        ensures=inner_exit + [TAKEN],
+        raises={"BaseException": inner_exit + [OWN, TAKEN]},
         modifies=[cqi, csi, "client_data._queue_condition.held", f"{gen}.finished", f"{gen}.closed", "ghost.suspensions", "ghost.delivered", "ghost.live_gens", "ghost.last_timeout",
-                  "ghost.handler_failures"],
+                  "ghost.handler_failures", "ghost.dg_taken"],
         env={"rely_havoc": [cqi], "rely_inv": [], "callee_variant": {"AsyncBackend.timeout": "yielded"},
              "call_hints": {"AsyncBackend.timeout": [("the-wait-for-the-next-datagram-uses-exactly-the-timeout-the-handler-just-yielded", "arg('delay') == ghost.last_timeout", "C16")]}},
         tags="C16 C17",
